@@ -342,20 +342,23 @@ TextFirstOK(res, L, C, trk, k) ==
      /\ Len(res) = Min2(k, Cardinality(L))
      /\ TopK(SubSeq(res, 1, n), C, trk, k)
      /\ \A i \in (n + 1)..Len(res) : res[i] \notin C
-\* 0 < alpha < 1, any k -- the late-fusion rule of searchWithFusion: the vector side contributes its k nearest
-\* (allowed) documents, the text side EVERY (allowed) candidate; a document of that pool is scored
-\*   alpha * 1/(1+d) [only if it is among the k nearest]  +  (1-alpha) * bm25/max [only if it is a candidate]
-\* (max over all allowed candidates) and the k best of the pool are returned.  The pool is decided here; the real-valued
-\* score enters as the pre-order frk (dense rank of the score the harness evaluated from the specification's integers).
-\* For k >= |L| the pool is L and the score is the plain formula alpha/(1+d) + (1-alpha)*bm25/max.
+\* 0 < alpha < 1, any k -- the documented formula on EVERY live (allowed) document:
+\*   score(d) = alpha * 1/(1+dist(d)) + (1-alpha) * bm25(d)/max     (bm25(d) = 0 unless d is a candidate; max over the allowed candidates)
+\* and the result is a selection of the k best of L by that score.  The real-valued score enters as the pre-order frk
+\* (dense rank of the score the harness evaluated from the specification's integers; ties share a rank).
+HybridOK(res, L, frk, k) == TopK(res, L, frk, k)
+
+\* Named deviation (NOT the rule): "late fusion with a truncated vector side" -- score only the pool
+\* (k nearest) \cup (all candidates) and give a candidate outside the k nearest no vector term.  It differs from the
+\* formula exactly when some candidate lies outside the k nearest; Canary_LateFusionIsFormula claims that never happens
+\* and TLC must refute it (the check fails if it cannot: the small-k searches would then not tell the two rules apart).
 VecTopK(L, vrk, k) == {d \in L : Cardinality({x \in L : vrk[x] < vrk[d]}) < k}
-FusionPool(L, C, vrk, k) == VecTopK(L, vrk, k) \cup C
-HybridOK(res, L, C, vrk, frk, k) == TopK(res, FusionPool(L, C, vrk, k), frk, k)
+LateFusionDropsVectorTerm(L, C, vrk, k) == C \ VecTopK(L, vrk, k) # {}
 FusionOK(mode, res, L, C, vrk, trk, frk, k) ==
   CASE mode = "textonly" -> TextOnlyOK(res, C, trk, k)
     [] mode = "alpha1"   -> VectorOnlyOK(res, L, vrk, k)
     [] mode = "alpha0"   -> TextFirstOK(res, L, C, trk, k)
-    [] mode = "hybrid"   -> HybridOK(res, L, C, vrk, frk, k)
+    [] mode = "hybrid"   -> HybridOK(res, L, frk, k)
 
 (***************************************************************************)
 (* Model-checking plumbing: bounds, view, corpus channel                   *)
@@ -380,6 +383,10 @@ Obs == [ cur   |-> [i \in 1..ND |-> cur[DocSeq[i]]],
 
 Geometry == [ docs |-> DocSeq, pos |-> Pos, qvecs |-> QVecs,
               d2 |-> [j \in 1..Len(QVecs) |-> [i \in 1..ND |-> D2(QVecs[j], Pos[i])]] ]
+
+Canary_LateFusionIsFormula ==
+  \A j \in 1..Len(QVecs), q \in 1..(2^NT - 1), k \in 1..ND :
+    ~LateFusionDropsVectorTerm(LiveDocs, Candidates(QTerms(q)), [d \in Docs |-> DocD2(j, d)], k)
 
 Emit_Corpus == PrintT(<<"CORPUS", ToJson([ops |-> hist, obs |-> Obs])>>)
 NextCorpus == Emit_Corpus /\ Next
